@@ -74,8 +74,8 @@ func selfCheck(c *core.Child) {
 				root = pl
 			}
 			want := canon([]byte(expected(d, pl)))
-			got1 := canonResult(graphql.Execute(graphql.ExecuteParams{Schema: theSchema, AST: sdoc, Root: root, Args: d.Vars, Context: context.Background()}))
-			got2 := canonResult(graphql.Execute(graphql.ExecuteParams{Schema: theSchema, AST: qdoc, Root: root, Args: d.Vars, Context: context.Background()}))
+			got1 := canonResult(graphql.Execute(graphql.ExecuteParams{Schema: theSchema, AST: sdoc, OperationName: d.OpName, Root: root, Args: d.Vars, Context: context.Background()}))
+			got2 := canonResult(graphql.Execute(graphql.ExecuteParams{Schema: theSchema, AST: qdoc, OperationName: d.OpName, Root: root, Args: d.Vars, Context: context.Background()}))
 			got2 = strings.ReplaceAll(got2, "non-nullable field Query.", "non-nullable field Subscription.")
 			c.Eval(2)
 			if got1 != want || got2 != want {
